@@ -270,7 +270,7 @@ NEIGHBOURS = {
     "C08": [("c01", ("C01.R1", "C01.R2", "C01.R3")), ("c02", ("C02.R",))],  # sampled distribution = |psi|^2 / diag(rho); rho well-formed
     "C09": [("c01", ("C01.R1", "C01.R2", "C01.R3")), ("c02", ("C02.R",))],
     "C10": [("c01", ("C01.R1", "C01.R2", "C01.R3", "C01.R5")), ("c02", ("C02.R",))],  # + Z = sum of probabilities
-    "C12": [("c07", ("C07.R6",))],                                   # one batch-start/batch-end pair per batch: ceil(N / pos_batch_size) batches per epoch
+    "C12": [("c07", ("C07.R2", "C07.R6"))],                                   # one batch-start/batch-end pair per batch: ceil(N / pos_batch_size) batches per epoch
     "C13": [("c08", ("C08.R1",)), ("c16", ("C16.R5",))],             # estimators (built-in and composite) leave the chain state alone                                   # estimators leave the chain state alone
     "C17": [("c11", ("C11.R1",)), ("c12", ("C12.R4",))],
     "C19": [("c04", ("C04.R4",))],                                   # site 0 is the leftmost factor of every tensor product             # every callback in the list receives every event
